@@ -412,3 +412,7 @@ def run(cx):
     cx.guard(r5_order_provenance, mods)
     cx.guard(r6_toposort_shape)
     cx.guard(r7_closure)
+    # "at most once" also rests on the decomposition into sub-graphs and on the drivers (C04.R4 / C04.R5)
+    from . import c04
+    cx.borrow(c04.r4_subgraphs, "C04.R4", "C01.R8", "sub-graph decomposition and drivers never evaluate a component in two sub-graphs (C04.R4/R5)")
+    cx.borrow(c04.r5_sibling_drivers, "C04.R5", "C01.R8", "sub-graph decomposition and drivers never evaluate a component in two sub-graphs (C04.R4/R5)")
